@@ -12,11 +12,15 @@ import Ptx.Drv.Branch
 import Ptx.Drv.Logic
 import Ptx.Drv.Model
 import Ptx.Drv.Tab
+import Ptx.Drv.Tree
+import Ptx.Drv.Render
+import Ptx.Drv.Sat
 open Ptx Ptx.Wire
 
 def handlers : List (List String → Option String) :=
   [Drv.Cont.handle, Drv.Parse.handle, Drv.Lex.handle, Drv.Life.handle, Drv.Branch.handle,
-   Drv.Logic.handle, Drv.Model.handle, Drv.Tab.handle]
+   Drv.Logic.handle, Drv.Model.handle, Drv.Tab.handle,
+   Drv.Tree.handle, Drv.Render.handle, Drv.Sat.handle]
 
 def handle (line : String) : String :=
   let ts := toks line
